@@ -55,6 +55,16 @@ def switch(target_handle: Handle[World], clear_current=False, clear_next=False,
     if from_world is None:
         from_world = desper.default_loop.current_world
 
+    # Clear the handles beforehand, so that the world receiving the
+    # events is the one that will actually be executed by the loop
+    self_switch = (from_world is not None and target_handle.cached
+                   and target_handle() is from_world)
+    if clear_next or (clear_current and self_switch):
+        target_handle.clear()
+    if self_switch:
+        clear_current = False
+    clear_next = False
+
     to_world = target_handle()
 
     if from_world is not None:
